@@ -316,6 +316,10 @@ class TransformDMA(RewritePattern):
         # construct the dict. we only need the strides not yet present in the lcb
         for key in bound_ops.keys():
             stride = tsl_source.data.get_stride(*key)
+            # a stride with a bound of 1 is never stepped: it needs no loop (and must not keep
+            # a fully contiguous copy from being recognised as such)
+            if stride.bound == 1:
+                continue
             if stride not in lcb:
                 remaining_strides[key] = RemainingStride(
                     stride_src=tsl_source.data.get_stride(*key),
